@@ -2,6 +2,7 @@ package props
 
 import (
 	"bytes"
+	"encoding/base64"
 	"fmt"
 
 	"free5gclib/nas/nasMessage"
@@ -139,6 +140,23 @@ func nasConstructors(ctx *Ctx, tab *refnas.Table) {
 			want("AuthenticationResponse", "RES*", cs, opts["AuthenticationResponseParameter"], res)
 		}
 	}
+	// the EAP branch of the same constructor (no RES*: EAP-AKA'): EAP packets of every length 1..70 (all residues mod 3 of
+	// the base64 text) and a few long ones
+	for _, n := range append(seqInts(1, 70), 255, 256, 300, 1000) {
+		eap := pattern(3, n)
+		cs := fmt.Sprintf("GetAuthenticationResponse EAP message of %d octets", n)
+		var b []byte
+		if perr := recoverErr(func() { b = nasTestpacket.GetAuthenticationResponse(nil, base64.StdEncoding.EncodeToString(eap)) }); perr != nil {
+			r.Violate("constructor/AuthenticationResponse/panic", cs, perr.Error(), nil)
+			continue
+		}
+		if _, opts, ok := parse("AuthenticationResponse", b, cs); ok {
+			want("AuthenticationResponse", "EAP-message", cs, opts["EAPMessage"], eap)
+			if _, has := opts["AuthenticationResponseParameter"]; has {
+				r.Violate("constructor/AuthenticationResponse/unexpected-IE", cs, "authentication response parameter present without RES*", nil)
+			}
+		}
+	}
 	for _, n := range []int{-1, 0, 1, 30, 255, 256, 300} {
 		var cont []byte
 		if n >= 0 {
@@ -269,4 +287,12 @@ func nasConstructors(ctx *Ctx, tab *refnas.Table) {
 	parse("DeregistrationAcceptUETerminatedDeregistration", nasTestpacket.GetDeregistrationAccept(), "GetDeregistrationAccept")
 	l.Merge()
 	r.Sample("GetUlNasTransport_PduSessionEstablishmentRequest psi=15 requestType=1 dnn=8 octets -> UL NAS TRANSPORT parsed by the table: container type, 5GSM header, 12/8-/22/25 IEs")
+}
+
+func seqInts(lo, hi int) []int {
+	var out []int
+	for i := lo; i <= hi; i++ {
+		out = append(out, i)
+	}
+	return out
 }
